@@ -926,3 +926,51 @@ def gen_tracker(tier, seed):
 
 def nontrivial_tracker(case, obs):
     return len(case) > 25
+
+
+# ----------------------------------------------------------------------------- opcode 90: serde
+SERDE_Q = [0, 1, 2, 4, 5, 10, 12, 13, 15]        # catalogue entries used with serialize_satisfying ((): everything)
+MUT_PARAMS = [0, 1, 2, 3, 4, 5, 7, 100, 1 << 32, (1 << 32) + 3, (1 << 33) + 1, (2 << 32) + 7, (1 << 32) + 40]
+
+
+def serde_case(universe, rnd, nops, malformed):
+    g = WorldGen(rnd, rnd.choice(["default", "alloc", "batch"]))
+    g.small = True
+    for _ in range(nops):
+        g.step()
+        if rnd.random() < 0.25:
+            w = rnd.randrange(2)
+            qi = 0 if rnd.random() < 0.6 else rnd.choice(SERDE_Q)
+            muts = []
+            if malformed and rnd.random() < 0.8:
+                for _ in range(rnd.choice([1, 1, 1, 2, 3])):
+                    k = rnd.random()
+                    idx = rnd.randrange(0, 14) if k < 0.55 else (rnd.randrange(0, 40) if k < 0.9 else rnd.randrange(0, 110))
+                    muts += [idx, rnd.randrange(7), rnd.choice(MUT_PARAMS)]
+            g.emit(90, w, rnd.randrange(2), rnd.randrange(2), qi, len(QASTS[qi]), QASTS[qi], len(muts) // 3, muts)
+    for w in (0, 1):
+        for fmt in (0, 1):
+            g.emit(90, w, fmt, rnd.randrange(2), 0, len(QASTS[0]), QASTS[0], 0)
+    g.emit(21, 0, 21, 1)
+    return [1] + universe + g.out
+
+
+def gen_serde(malformed, quick_n, thorough_n):
+    def gen(tier, seed, universe):
+        rnd = random.Random(seed)
+        for _ in range(quick_n if tier == "quick" else thorough_n):
+            yield serde_case(universe, rnd, rnd.randrange(3, 30), malformed)
+    return gen
+
+
+SERDE_RULE = (WORLD_RULE + ". Serialisation operations on the worlds the history reaches (holes in the id space, bumped "
+              "generations, emptied archetypes, unhandled extra components): row and column format, serialize_satisfying "
+              "with 9 query types, through a strict token-tree backend whose serializer records announced vs actual "
+              "lengths and whose deserializer runs in self-describing and in length-driven mode; the token tree is "
+              "compared with the model's; for C15 the tree is mutated (replace node by a number, drop/duplicate elements, "
+              "change announced lengths, swap elements, shift numbers, replace by an empty sequence; node chosen by "
+              "pre-order index) before decoding and the outcome (error / resulting world) compared with the model. "
+              "Supporting: serde_json and bincode round trips, truncated bincode input, decoded-vs-dropped component "
+              "counts, consistency and continued usability of every accepted world")
+SERDE_ASSUME = ["the user context is the documented example generalised: it handles 3 component types identified by number; "
+                "component values are numbers", "announced sizes and ids stay allocatable (entity ids <= 4096, counts small)"]
